@@ -162,4 +162,66 @@ theorem events_wellKinded (b : Body) (hacc : accepted b = true) (t : List (Ev V)
     | false => rfl
     | true => exact absurd ((isList_iff_count b a).mp (by simpa [isList] using hl)) hc
 
+/-! ### raw list assignment nodes (values and separator matches) -/
+
+/-- the loop over the children of a list assignment node stores exactly the values
+of the children that were not made by the separator match -/
+theorem storeKids_eq (a : Attr) (sep : Option Nat) : ∀ (ks : List (Kid V)) (h : Heap V),
+    storeKids h a sep ks = storeList h a (kidVals sep ks)
+  | [], h => rfl
+  | k :: ks, h => by
+      by_cases hk : k.kept sep = true
+      · cases hh : h a with
+        | none => simp [storeKids, kidVals, hk, storeList, hh]; exact storeKids_eq a sep ks _
+        | list xs => simp [storeKids, kidVals, hk, storeList, hh]; exact storeKids_eq a sep ks _
+        | scalar v => simp [storeKids, kidVals, hk, storeList, hh]
+      · have hk' : k.kept sep = false := by simpa using hk
+        simp only [storeKids, kidVals, hk', List.filter_cons]
+        simpa [kidVals] using storeKids_eq a sep ks h
+
+theorem storeRawEv_eq (truthy : V → Bool) (h : Heap V) (e : Raw V) :
+    storeRawEv truthy h e = storeEv truthy h e.ev := by
+  cases e with
+  | plain a v => rfl
+  | bool a v => rfl
+  | list a pl sep ks => simp [storeRawEv, Raw.ev, storeEv, storeKids_eq]
+
+/-- processing the raw nodes is processing their assignment events -/
+theorem storeRaw_eq (truthy : V → Bool) : ∀ (t : List (Raw V)) (h : Heap V),
+    storeRaw truthy h t = store truthy h (t.map Raw.ev)
+  | [], _ => rfl
+  | e :: t, h => by
+      simp only [storeRaw, List.map_cons, store, storeRawEv_eq]
+      cases storeEv truthy h e.ev with
+      | ok h' => exact storeRaw_eq truthy t h'
+      | error x => rfl
+
+/-- Arpeggio's list node: every child was made either by the value expression `r` or
+by the separator match `s`, two different parsing expressions.  However the two
+kinds are interleaved — separators left out, doubled, trailing — the kept values are
+the values of the `r` children in input order. -/
+theorem kidVals_of_shape (r s : Nat) (hrs : r ≠ s) : ∀ (ks : List (Kid V)),
+    (∀ k ∈ ks, k.rule = r ∨ k.rule = s) →
+    kidVals (some s) ks = (ks.filter (fun k => k.rule == r)).map Kid.val
+  | [], _ => rfl
+  | k :: ks, hall => by
+      have ih := kidVals_of_shape r s hrs ks (fun k hk => hall k (by simp [hk]))
+      have hk := hall k (by simp)
+      unfold kidVals at ih ⊢
+      rcases hk with hk | hk
+      · have h1 : k.kept (some s) = true := by simp [Kid.kept, hk, hrs]
+        simp [h1, hk, ih]
+      · have h1 : k.kept (some s) = false := by simp [Kid.kept, hk]
+        have h2 : (k.rule == r) = false := by simp [hk, Ne.symm hrs]
+        simp [h1, h2, ih]
+
+/-- without a separator every child is a value -/
+theorem kidVals_none (ks : List (Kid V)) : kidVals none ks = ks.map Kid.val := by
+  have h : ∀ l : List (Kid V), l.filter (Kid.kept none) = l := by
+    intro l
+    induction l with
+    | nil => rfl
+    | cons k l ih => simp [List.filter_cons, Kid.kept, ih]
+  simp [kidVals, h]
+
 end Mult
